@@ -87,7 +87,7 @@ def run(pid, tier, seed, replay=None):
             rep.count("mode=" + meta["mode"]); rep.count("kind=" + meta["kind"]); rep.count("fits=" + f["fits"])
             rep.count("pooled" if nb != n else "unpooled")
             payload = {"case": meta, "driver_line": line, "driver_answer": ans}
-            if f["model"] != "ok":
+            if f["model"] != "ok" or (pid in ("C02", "C03") and f["model3"] != "ok"):
                 st["broken"].append("model-prop-fail: the proved predicate is false of the model's own output (constants changed?)")
                 rep.prop_fail.append(("property predicate false on the model for this input", payload)) if False else None
             if kn and kn in known and prop:
